@@ -860,6 +860,65 @@ func muxPMTBody(r *Rng, tier string, target int) (int, []muxOp) {
 	return r.Range(1, 3), g.ops
 }
 
+// muxPMTCapacity: tables are emitted, then streams are added until the PMT body (4 + sum of 5 + descriptors) is
+// exactly target bytes — 171 is the largest body that fits the single packet the muxer writes a PMT into — then k
+// calls that need the tables (they fail when the body is too large), then a stream is removed and the tables are
+// written again: version numbers must have moved by exactly one per content change, however many attempts failed.
+func muxPMTCapacity(r *Rng, tier string, target int) (int, []muxOp) {
+	g := newMuxGen(r, tier)
+	g.addExplicit(0)
+	g.setPCR(true)
+	first := g.pids[0]
+	g.tables()
+	g.data(first, nil, r.Range(1, 300))
+	rest := target - 4 - 5
+	for rest >= 5 {
+		n := 5
+		switch {
+		case rest >= 12 && r.Chance(1, 3):
+			n = 5 + r.Range(2, 7)
+		case rest < 10:
+			n = rest
+		}
+		if rest-n > 0 && rest-n < 5 {
+			n = rest
+		}
+		if n == 6 {
+			n = 5
+			if rest == 6 {
+				break
+			}
+		}
+		if r.Bool() {
+			g.addAuto(0)
+		} else {
+			g.addExplicit(0)
+		}
+		g.ops[len(g.ops)-1].es.ElementaryStreamDescriptors = descsOfSize(r, n-5)
+		rest -= n
+		if rest == 6 {
+			break
+		}
+	}
+	for k := r.Range(1, 34); k > 0; k-- {
+		if r.Bool() {
+			g.tables()
+		} else {
+			g.data(first, g.firstAF(0, 1), r.Range(1, 300))
+		}
+	}
+	for i := r.Range(1, 2); i > 0 && len(g.pids) > 1; i-- {
+		g.remove(true)
+	}
+	if !g.has(g.pcr) {
+		g.setPCR(true)
+	}
+	g.tables()
+	pid, _ := g.anyPID()
+	g.data(pid, nil, r.Range(1, 300))
+	return r.Range(1, 3), g.ops
+}
+
 // muxManyPackets: more than 16 packets per PID in several calls, interleaved over PIDs, with failing calls in between.
 func muxManyPackets(r *Rng, tier string) (int, []muxOp) {
 	g := newMuxGen(r, tier)
@@ -1072,6 +1131,10 @@ func muxGenAll(r *Rng, tier string, m muxMix, emit func(string, Tok)) {
 		}
 		p, ops := muxPMTBody(r, tier, target)
 		emit("pmt-body-overflow", muxCaseTok(p, ops))
+	}
+	for i := 0; i < m.bigPMT/2+1; i++ {
+		p, ops := muxPMTCapacity(r, tier, []int{171, 172, 172, 173, 170, 177, 184}[i%7])
+		emit("pmt-capacity", muxCaseTok(p, ops))
 	}
 	for i := 0; i < m.readd; i++ {
 		p, ops := muxReAddHistory(r, tier)
